@@ -432,6 +432,16 @@ def _g_x0x1(rng, tier):
         yield dict(zip(("x0o", "x1o", "x0e", "x1e"), v))
     for _ in range(gens.budget(tier, 500, 5000)):
         yield dict(zip(("x0o", "x1o", "x0e", "x1e"), (rng.randint(-50, 50) for _ in range(4))))
+    # detector-sized coordinates (a CCD has thousands of rows and columns; integers above 256 are not interned by CPython), with the
+    # windows that merely TOUCH the region at either end, as Python ints and as numpy integers
+    import numpy as _np
+    for base in (300, 2066, 70000):
+        for (a, b, c, d) in ((0, 20, -57, 0), (300, 320, -57, 300), (0, 20, 20, 41), (5, 9, 0, 5), (400, 409, 0, 400), (5, 9, 9, 30), (0, 20, -5, 7), (3, 8, 3, 8), (0, 20, 25, 30)):
+            for cast in (int, _np.int64):
+                yield {"x0o": cast(base + a), "x1o": cast(base + b), "x0e": cast(base + c), "x1e": cast(base + d)}
+    for _ in range(gens.budget(tier, 200, 2000)):
+        b = rng.choice([300, 2066, 70000])
+        yield dict(zip(("x0o", "x1o", "x0e", "x1e"), (b + rng.randint(-50, 50) for _ in range(4))))
 
 
 CONTRACTS[LU + "x0x1_after_extraction"].gen = _g_x0x1
